@@ -185,6 +185,35 @@ def coq_build(prop, cfg):
     return res
 
 
+def coqchk(prop):
+    """independent re-check of the compiled property file and everything it depends on (thorough tier);
+    cached by the hash of the .vo files it covers"""
+    vo = os.path.join(COQ, "theories", "Props", prop + ".vo")
+    if not os.path.exists(vo):
+        return {"ran": False, "ok": False, "log": "no " + vo}
+    h = hashlib.sha256()
+    for d, _, fs in sorted(os.walk(os.path.join(COQ, "theories"))):
+        for f in sorted(fs):
+            if f.endswith(".vo"):
+                h.update(open(os.path.join(d, f), "rb").read())
+    key = h.hexdigest()
+    cache = os.path.join(OUT, "coqchk_%s.json" % prop)
+    if os.path.exists(cache):
+        c = json.load(open(cache))
+        if c.get("key") == key:
+            c["cached"] = True
+            return c
+    t0 = time.time()
+    rc, out = sh(["timeout", "3000", "coqchk", "-silent", "-o", "-Q", "theories", "Echo", "Echo.Props." + prop], cwd=COQ, timeout=3100)
+    axioms = []
+    m = re.search(r"\* Axioms:(.*?)(\n\* |\Z)", out, flags=re.S)
+    if m:
+        axioms = [l.strip() for l in m.group(1).splitlines() if l.strip() and "<none>" not in l]
+    res = {"ran": True, "ok": rc == 0, "key": key, "axioms": axioms, "wall_s": round(time.time() - t0, 1), "log": out[-1500:], "cached": False}
+    json.dump(res, open(cache, "w"))
+    return res
+
+
 def ocaml_build(prop):
     num = prop[1:]
     ml = os.path.join(COQ, "extracted", "m%s.ml" % num)
@@ -291,6 +320,7 @@ def check(prop, tier, seed):
                 broken.append("translator:%s: %s" % (g, gstat[g]))
         cb = coq_build(prop, cfg)
         orc, oout = (1, "") if not cb["model_ok"] else ocaml_build(prop)
+        chk = coqchk(prop) if (tier == "thorough" and cb["props_ok"]) else None
     if gate:
         broken.append("forbidden vernacular: " + "; ".join(gate[:5]))
     if not cb["props_ok"]:
@@ -301,6 +331,8 @@ def check(prop, tier, seed):
         broken.append("assumptions outside the whitelist: " + ", ".join(cb["bad_axioms"]))
     if cb["missing_print"]:
         broken.append("theorems without Print Assumptions: " + ", ".join(cb["missing_print"]))
+    if chk is not None and not chk["ok"]:
+        broken.append("coqchk rejected Props/%s.vo or a file it depends on: %s" % (prop, chk["log"][-300:]))
     if not cb["model_ok"]:
         broken.append("model: Glue/Extract for %s no longer compiles" % prop)
     elif orc != 0:
@@ -415,6 +447,7 @@ def check(prop, tier, seed):
             "predicate_failures_on_impl": len(viol), "known_findings_hit": sorted(known_hit.keys()),
             "input_distribution": dist.get("dist", {}), "search_cases": searched, "broken": broken,
             "gen_files": cfg.get("gen", []),
+            "coqchk": None if chk is None else {k: chk[k] for k in ("ok", "axioms", "wall_s", "cached") if k in chk},
         },
         "assumptions": cfg.get("assumptions", []),
         "wall_s": round(time.time() - t0, 2), "violations": violations,
